@@ -89,7 +89,10 @@ def doc_reporting(t: Tape, marker: str) -> str:
     routed fields, holographic values, under both generated schemas."""
     lines = ["===DOC===", "META:", "  TYPE::TEST", '  VERSION::"1.0"', f"  MARK::{marker}"]
     unknown = t.shuffle(["ZED", "YOT", "ALPHA", "BETA", "GAMMA", "OMEGA", "KAPPA", "MU"], "rep.unk")[: 3 + t.choose(6, "rep.nunk")]
-    lines.append("GEN_A:")
+    # block-level routing targets (`SECTION[->§TARGET]:`): fields WITHOUT a target of their own inherit them -- the rare path
+    # through the inheritance resolver; documents of one process's history use different targets for the same section
+    BT = ["", "[→§INDEXER]", "[→§SELF]", "[→§META]", "[→§NOPE_T]", "[->§INDEXER]"]
+    lines.append("GEN_A" + t.pick(BT, "rep.btA") + ":")
     if t.choose(4, "rep.holo") != 0:
         lines.append('  NAME::["' + t.pick(["abc", "def", "x y"], "rep.nm") + '"∧REQ→§INDEXER]')
     else:
@@ -104,14 +107,14 @@ def doc_reporting(t: Tape, marker: str) -> str:
         lines.append(f"  {u}::{t.choose(9, 'rep.v')}")
     if t.choose(3, "rep.dup") == 0:
         lines.append("  KIND::Y")
-    lines.append("GEN_B:")
+    lines.append("GEN_B" + t.pick(BT, "rep.btB") + ":")
     lines.append("  TITLE::" + t.pick(["good_title", "Bad Title", '"quoted"'], "rep.title"))
     lines.append("  LEVEL::" + t.pick(["LOW", "low", "ULTRA", "LO", "L", "MID", "M", "MI", "HI"], "rep.level"))
     lines.append("  SIZE::" + t.pick(["3", "12", '"4"', "1.0", "1", "true", "0.0", "false"], "rep.size"))
     for u in t.shuffle(unknown, "rep.unk2")[:4]:
         lines.append(f"  {u}_B::1")
     if t.choose(2, "rep.genc"):
-        lines += ["GEN_C:", "  CONTENT::" + t.pick(["c", '"two words"'], "rep.cc"), "  STATUS::" + t.pick(["ACTIVE", "active", "A", "DONE"], "rep.cs"),
+        lines += ["GEN_C" + t.pick(BT, "rep.btC") + ":", "  CONTENT::" + t.pick(["c", '"two words"'], "rep.cc"), "  STATUS::" + t.pick(["ACTIVE", "active", "A", "DONE"], "rep.cs"),
                   "  Status::on", "  A_B::1"]
     if t.choose(3, "rep.lit") == 0:
         # literal zone with characters that have several Unicode spellings (composed/decomposed, ligature, full-width)
@@ -144,13 +147,29 @@ def doc_contract(t: Tape, marker: str) -> str:
             + f"]\nMARK::{marker}\nSTATUS::ACTIVE\n===END===\n")
 
 
+N_TWIN_KINDS = 12
+
+
 def near_twin(t: Tape, text: str):
     """A DIFFERENT text that a sloppy cache key would confuse with ``text`` (normalisation form, case, surrounding or
     trailing whitespace, final newline).  Returns None when the transformation changes nothing."""
     import unicodedata
 
-    k = t.choose(8, "twin.kind")
-    if k == 0:
+    import re
+
+    k = t.choose(N_TWIN_KINDS, "twin.kind")
+    if k == 8:
+        # same sections and fields, another block-level routing target: anything remembered per section/field path must not
+        # carry over from the twin (r8d: a memo keyed by the id() of a per-call mapping whose address gets recycled)
+        out = re.sub(r"(?m)^([A-Z][A-Z0-9_]*)\[(?:→|->)§([A-Z_]+)\]:$",
+                     lambda m_: f"{m_.group(1)}[→§{'SELF' if m_.group(2) != 'SELF' else 'INDEXER'}]:", text)
+    elif k == 9:
+        out = re.sub(r"(?m)^([A-Z][A-Z0-9_]*)\[(?:→|->)§[A-Z_]+\]:$", r"\1:", text)
+    elif k == 10:
+        out = re.sub(r"(?m)^((?!META)[A-Z][A-Z0-9_]*):$", r"\1[→§META]:", text)
+    elif k == 11:
+        out = re.sub(r"(?m)^((?!META)[A-Z][A-Z0-9_]*):$", r"\1[→§NOPE_T]:", text)
+    elif k == 0:
         out = unicodedata.normalize("NFD", text)
     elif k == 1:
         out = unicodedata.normalize("NFC", text)
@@ -172,7 +191,7 @@ def near_twin(t: Tape, text: str):
 def near_twins(text: str) -> list:
     """Every distinct near-twin of ``text`` (see near_twin), in a fixed order."""
     out, seen = [], {text}
-    for k in range(8):
+    for k in range(N_TWIN_KINDS):
         tw = near_twin(Tape(values=[k]), text)
         if tw is not None and tw not in seen:
             seen.add(tw)
